@@ -29,8 +29,17 @@ never match the attribute names `"_igraph"`, `"_graph_nx"`, `"_segments"`). -/
 theorem excludes_retain_nothing : ∀ c ∈ spec.clearSites, ∀ v ∈ spec.views, v.attr ∉ c.excl :=
   (sound_facts spec_sound).exclFree
 
-/-- Every wrapped view is computed from hashed columns only: the checksum covers its inputs. -/
-theorem deps_covered : ∀ v ∈ wrappedViews spec, ∀ c ∈ viewDeps v.name, c ∈ spec.coreCols := by decide
+/-- Every wrapped view is computed from hashed columns only: the checksum covers its inputs.  The one
+exception is written into the statement: `simple` (a whole neuron) also carries `radius`, which no version
+of `CORE_DATA` hashes — finding `TreeNeuron.simple/radius-not-in-CORE_DATA`; the exception is vacuous while
+`simple` is not wrapped at all. -/
+theorem deps_covered : ∀ v ∈ wrappedViews spec, ∀ c ∈ viewDeps v.name,
+    c ∈ spec.coreCols ∨ (v.name = "simple" ∧ c = "radius") := by decide
+
+/-- `simple` depends on a column outside the generated `CORE_DATA` (so even with the wrapper a direct edit
+of `radius` is not noticed) — unless a later version hashes `radius`. -/
+theorem simple_depends_on_unhashed_radius :
+    "radius" ∈ spec.coreCols ∨ ∃ c ∈ viewDeps "simple", c ∉ spec.coreCols := by decide
 
 /-- Every lazily cached view named by the property statement (graphs, segments, geodesic matrix, cable
 length, adjacency) carries the staleness wrapper. -/
